@@ -70,17 +70,18 @@ pub struct ModelMemorySizes<T: for<'a> AnyNumberType<'a>> {
     pub index_buffer_size: [T; 3],
 }
 
-impl<T: for<'a> AnyNumberType<'a>> ModelMemorySizes<T> {
-    pub fn total(&self) -> T {
-        let mut total: T = T::default();
+impl<T: for<'a> AnyNumberType<'a> + Into<u64>> ModelMemorySizes<T> {
+    /// The sum of all sections; wider than `T`, because the sum of eleven values from a file need not fit one.
+    pub fn total(&self) -> u64 {
+        let mut total = 0u64;
 
-        total += self.stack_size;
-        total += self.runtime_size;
+        total += self.stack_size.into();
+        total += self.runtime_size.into();
 
         for i in 0..3 {
-            total += self.vertex_buffer_size[i];
-            total += self.edge_geometry_vertex_buffer_size[i];
-            total += self.index_buffer_size[i];
+            total += self.vertex_buffer_size[i].into();
+            total += self.edge_geometry_vertex_buffer_size[i].into();
+            total += self.index_buffer_size[i].into();
         }
 
         total
@@ -396,7 +397,7 @@ impl SqPackData {
         let mut data: Vec<u8> = Vec::with_capacity(file_info.file_size as usize);
 
         // write the header if it exists
-        let mipmap_size = texture_file_info.lods[0].compressed_size;
+        let mipmap_size = texture_file_info.lods.first()?.compressed_size;
         if mipmap_size != 0 {
             let original_pos = self.file.stream_position().ok()?;
 
@@ -425,7 +426,8 @@ impl SqPackData {
 
                 self.file.seek(SeekFrom::Start(original_pos)).ok()?;
 
-                running_block_total += self.file.read_le::<i16>().ok()? as u64;
+                running_block_total = running_block_total
+                    .checked_add_signed(self.file.read_le::<i16>().ok()? as i64)?;
             }
         }
 
